@@ -176,6 +176,20 @@ theorem output_visible (m : OutMap) (d : Done) (later : List Done) (hn : d.name 
   rw [afterSteps_keeps later _ d.name (stored d.name d.out) (get_store_same _ _ _) hl]
   simp [restore_stored]
 
+/-- **C11 (precedence).** A captured output wins over everything else that carries the same name — the agent's own
+    environment, a named parameter, a DAG-level `env:` entry (step.Variables), an earlier output under that name: after
+    the producer finished every later process sees the captured value, whatever `proc`, `vars`, `ctx` hold. -/
+theorem output_precedence (proc vars ctx : EnvList) (m : OutMap) (d : Done) (later : List Done) (hn : d.name ≠ [])
+    (hl : ∀ e ∈ later, e.name ≠ d.name) :
+    childSees proc vars ctx (afterSteps m (d :: later)) d.name = some (capture d.out) := by
+  unfold childSees
+  rw [output_visible m d later hn hl]
+
+/-- … and a name no step has captured is looked up in the rest, last entry first. -/
+theorem no_output_falls_through (proc vars ctx : EnvList) (m : OutMap) (k : Str) (h : m.get k = none) :
+    childSees proc vars ctx m k = lookupLast (proc ++ vars ++ ctx) k := by
+  simp [childSees, seen, h]
+
 /-- **C11 (the value arrives) — full statement, every size.** Whatever the capacity of the capture pipe and
     however much the step prints, the producing step ends (the pipe is drained while the command runs),
     and the stored value can be handed to every later process as long as `NAME=value` stays below the
@@ -215,5 +229,7 @@ end BdModel.P11
 #print axioms BdModel.P11.capture_last_attempt
 #print axioms BdModel.P11.restore_exact
 #print axioms BdModel.P11.output_visible
+#print axioms BdModel.P11.output_precedence
+#print axioms BdModel.P11.no_output_falls_through
 #print axioms BdModel.P11.output_arrives
 #print axioms BdModel.P11.param_regression_F14a
